@@ -28,7 +28,7 @@ Inductive obs :=
 | OSent (tk t0 tau : Z)        (* SearchRequestSentEvent; tau = 0: no timer *)
 | OResult (tk id : Z)          (* SearchResultEvent (and results.append) for reply number id *)
 | ORemoved (tk t : Z)          (* SearchRequestRemovedEvent at time t *)
-| OErrKey (tk t : Z)           (* KeyError escaping a timer task -> loop exception handler *)
+| OErrKey (tk t : Z)           (* KeyError escaping a timer task -> loop exception handler (unreachable in the repaired code) *)
 | ORemoveOk (tk : Z)           (* remove_request returned *)
 | ORemoveKeyErr (tk : Z).      (* remove_request raised KeyError (unknown / already removed) *)
 
@@ -132,7 +132,10 @@ Definition step (s : state) (e : event) : state :=
   | SetInterval i => set_interval s (Some i)
   | Reply tk id => if memz tk (requests s) then emit s (OResult tk id) else s
   | Remove tk =>
-      if memz tk (requests s) then emit (set_requests s (delz tk (requests s))) (ORemoveOk tk)
+      (* requests.pop(ticket); then the popped request's timer (if any) is cancelled *)
+      if memz tk (requests s) then
+        let s := emit (set_requests s (delz tk (requests s))) (ORemoveOk tk) in
+        if has_timer s tk then cancel_timer s tk else s
       else emit s (ORemoveKeyErr tk)
   | Cancel tk => if has_timer s tk then cancel_timer s tk else s
   | Resched tk tau =>
@@ -150,10 +153,11 @@ Definition step (s : state) (e : event) : state :=
         | Pend true => finish_task s i
         | Pend false =>
             if Z.leb (deadline t) (now s) then
-              (* _timeout_search_request: del self.requests[ticket]; emit Removed *)
+              (* _timeout_search_request: nothing when the request is no longer registered;
+                 else del self.requests[ticket]; emit Removed *)
               if memz (owner t) (requests s)
               then finish_task (emit (set_requests s (delz (owner t) (requests s))) (ORemoved (owner t) (now s))) i
-              else finish_task (emit s (OErrKey (owner t) (now s))) i
+              else finish_task s i
             else s
         | Fin _ => s
         end
@@ -163,9 +167,12 @@ Definition step (s : state) (e : event) : state :=
         let t := tasks s i in
         match status t with
         | Fin true =>
-            (* Timer._unset_task: self._task = None, whatever task the handle holds *)
-            set_handle (set_tasks s (updn (tasks s) i (mkTask (owner t) (deadline t) (Fin false))))
-                       (upd (handle s) (owner t) None)
+            (* Timer._unset_task: self._task = None only when the handle still is this task *)
+            let s' := set_tasks s (updn (tasks s) i (mkTask (owner t) (deadline t) (Fin false))) in
+            match handle s (owner t) with
+            | Some j => if Nat.eqb j i then set_handle s' (upd (handle s) (owner t) None) else s'
+            | None => s'
+            end
         | _ => s
         end
       else s
